@@ -3,7 +3,7 @@ import TV.Proofs.Server
 # C18 — Server starts every listener and stops gracefully and completely
 -/
 namespace TV.C18
-open TV.ServerLifecycle TV.Server
+open TV.ServerLifecycle TV.Server TV
 
 /-- the caller's WaitGroup counter equals the number of providers that have been started and whose serve call has not returned; it is never negative. -/
 theorem C18_wg_balanced :
@@ -29,10 +29,34 @@ theorem C18_start_signals_all :
     ∀ (n : Nat) (s : St), Reach n s → (s.caller = .startReturned ∨ (∃ k e, s.caller = .stopping k e) ∨ (∃ e, s.caller = .waitingStopWg e) ∨ (∃ e, s.caller = .stopReturned e)) →
     s.provs.length = n ∧ ∀ p ∈ s.provs, p.pc ≠ .notStarted := Proofs.C18_start_signals_all
 
+/-- Stop called again (model TV.StopRetry: any number of Stop calls on web providers, any contexts, any requests still running): every call with an ample context — whatever earlier calls gave up on — returns nil, and only when no request is running any more. -/
+theorem C18_retried_stop_waits :
+    ∀ (n : Nat) (f : Nat → Nat) (s : StopRetry.St), StopRetry.Reach n f s →
+    ∀ r ∈ s.returned, r.1 = true → r.2.1 = false ∧ r.2.2 = 0 := Proofs.C18_retried_stop_waits
+
+/-- a Stop call in progress is never stuck: it can move on, or it is waiting (ample context) for a running request of the provider it is at, and that request can complete. -/
+theorem C18_retried_stop_progress :
+    ∀ (n : Nat) (f : Nat → Nat) (s : StopRetry.St), StopRetry.Reach n f s → ∀ (k : Nat) (a e : Bool), s.stopping = some (k, a, e) →
+    (StopRetry.step? s .provStop).isSome = true ∨
+    (a = true ∧ k < s.n ∧ 0 < s.inflight k ∧ (StopRetry.step? s (.finishReq k)).isSome = true) := Proofs.C18_retried_stop_progress
+
+/-- a Stop call never cuts a web request off, whatever its context: the walk over the providers leaves the running requests as they are (they end by completing). -/
+theorem C18_expired_stop_cuts_nothing :
+    ∀ (s s' : StopRetry.St), StopRetry.step? s .provStop = some s' → s'.inflight = s.inflight := Proofs.C18_expired_stop_cuts_nothing
+
 /-! non-vacuity: two providers, Stop immediately after Start with one goroutine not yet serving -/
 example : ∃ s, runActs (init 2) [.startCall, .spawn, .spawn, .provSignal 0, .provSignal 1, .startWgDone, .provServe 0, .stopCall true,
     .provStop, .provStop, .provStop, .provServe 1, .provReturn 0, .provReturn 1, .stopWgDone] = some s ∧
     s.caller = .stopReturned false ∧ s.stopWg = 0 := by
   refine ⟨_, rfl, ?_⟩; decide
+
+/-! non-vacuity (retried Stop): two providers, two requests running on the first; the expired call gives up with an error and both
+    still running; the ample one cannot move before both have completed, and returns nil -/
+example : ∃ s, StopRetry.runActs (StopRetry.init 2 (fun i => if i = 0 then 2 else 0))
+    [.stopCall false, .provStop, .provStop, .provStop, .stopCall true] = some s ∧
+    s.returned = [(false, true, 2)] ∧ (StopRetry.step? s .provStop).isNone = true := ⟨_, rfl, by decide, by decide⟩
+example : ∃ s, StopRetry.runActs (StopRetry.init 2 (fun i => if i = 0 then 2 else 0))
+    [.stopCall false, .provStop, .provStop, .provStop, .stopCall true, .finishReq 0, .finishReq 0, .provStop, .provStop, .provStop] = some s ∧
+    s.returned = [(true, false, 0), (false, true, 2)] := ⟨_, rfl, by decide⟩
 
 end TV.C18
